@@ -148,7 +148,7 @@ def run(scn):
                 def bounces(e):
                     return sum(1 for i in range(1, len(e)) if e[i] > e[i - 1])
 
-                erratic = bool(where["screening"] and a["n_screen"] != b["n_screen"] and min(a["n_screen"], b["n_screen"]) >= 60 and min(bounces(a["screen_errs"]), bounces(b["screen_errs"])) >= 10)
+                erratic = bool(where["screening"] and a["n_screen"] != b["n_screen"] and min(bounces(a["screen_errs"]), bounces(b["screen_errs"])) >= 10)
                 # ... or the induced potential is at rounding-noise level in one twin (exactly zero
                 # currents in one statement of the problem, 1e-18 noise in the other): the relative
                 # criterion then compares noise with noise
@@ -164,9 +164,15 @@ def run(scn):
                 )
                 break
         lib1, lib2 = base.expected_library_error(h1), base.expected_library_error(h2)
+        lib1_ = lib1 and lib2
         if lib1 != lib2:
             # convergence / retry-exhaustion errors are threshold decisions on rounding-level data
             h1.probe("twin_convergence_diverged")
+        elif lib1_ and not V and len(t1) != len(t2):
+            # both statements of the problem end in the library's own non-convergence error, one of them a
+            # step later: every step recorded by both agrees, and where an iteration that does not
+            # converge gives up is a threshold decision on rounding-level data
+            h1.probe("twin_both_failed_at_different_steps")
         elif not V and len(t1) != len(t2) and compared == n and not h1.probes.get("twin_refusal_pattern_diverged"):
             V.append(Violation("gauge-length", f"the two gauges made {len(t1)} and {len(t2)} updates ({h1.outcome} / {h2.outcome})", **where))
         driven = scn["drive"]["field"]["kind"] != "zero" or scn["drive"].get("currents") is not None or (scn["drive"].get("epsilon") or {}).get("kind") == "spatial"
